@@ -1025,7 +1025,8 @@ pub fn finish(m: &Mutated, over: SignOver) -> Vec<u8> {
 // ---------------------------------------------------------------------------------------------
 // unsigned tampers (C01)
 
-pub const FIELD_TAMPERS: [&str; 20] = [
+pub const FIELD_TAMPERS: [&str; 21] = [
+    "sig-der",
     "dup-pair-unsigned-before",
     "dup-pair-unsigned-after",
     "sig-strip-leading-zero",
@@ -1211,6 +1212,23 @@ pub fn field_tamper(d: &Draft, which: &str, c: &mut Choices) -> Vec<u8> {
             if !found {
                 // pad instead: a 65-byte field with a leading zero
                 sig.insert(0, 0);
+            }
+        }
+        "sig-der" => {
+            // the same (r, s) in ASN.1 DER (what other tools emit): 30 len 02 lr r 02 ls s
+            let int = |b: &[u8]| -> Vec<u8> {
+                let mut v: Vec<u8> = b.iter().copied().skip_while(|x| *x == 0).collect();
+                if v.is_empty() || v[0] & 0x80 != 0 {
+                    v.insert(0, 0);
+                }
+                let mut o = vec![0x02, v.len() as u8];
+                o.extend(v);
+                o
+            };
+            if good_sig.len() == 64 {
+                let body = [int(&good_sig[..32]), int(&good_sig[32..])].concat();
+                sig = vec![0x30, body.len() as u8];
+                sig.extend(body);
             }
         }
         "dup-pair-unsigned-before" | "dup-pair-unsigned-after" => {
